@@ -728,6 +728,12 @@ class Lib:
     def loop_by_invariant(self, ex, st, s, fid, it):
         if hasattr(it, 'abs_loop'):
             return it.abs_loop(ex, st, s, fid)
+        if isinstance(it, Ref):
+            hk = self.hooks.get('loop_kind:' + st.heap[it.oid].kind)
+            if hk:
+                r = hk(ex, st, s, fid, it)
+                if r is not None:
+                    return r
         if not (isinstance(it, Ref) and st.heap[it.oid].kind in (
                 'list', 'range', 'dict')):
             ex.note(st, 'loop over unmodelled iterable at line %d' % s.lineno)
